@@ -115,56 +115,89 @@ def stripExtras (g : Grammar) (w : List Tok) : List Tok := w.filter fun t => !(e
 
 /-! ## dynamic precedence of derivations (for grammars with declared conflicts)
 
-`DerivesTokD g r w d`: `w` is derived by `r` through a derivation whose `PREC_DYNAMIC` values sum to
-`d`.  `dynOracle` enumerates all (string, total) pairs up to length `L`; the judge compares the
-dynamic precedence the runtime stored in the root of the real tree with the maximum over all
-derivations of the same string. -/
+What the generator does (flatten_grammar.rs, process_inlines.rs): every *production* carries ONE
+dynamic precedence — among the `PREC_DYNAMIC` wrappers met while flattening the alternative the
+first one of greatest magnitude (`comb`); when an inlined rule's production is substituted, its
+value replaces the outer one only if its magnitude is strictly greater (the outer value is looked
+at first).  Separate symbols — visible and hidden non-inlined rules, the auxiliary symbol of a
+repeat (one production per iteration) — are separate productions; the runtime adds the values of
+all reductions below a node.  `DerivesTokD g r w own inl e`: `w` is derived by `r`; `own` is the
+value of the wrappers of the current production itself, `inl` the value coming from inlined rules
+in it, `e` the sum over all completed productions below. -/
 
-inductive DerivesTokD (g : Grammar) : Rule → List Tok → Int → Prop
-  | blank : DerivesTokD g .blank [] 0
-  | str {s} : DerivesTokD g (.str s) [⟨s, false⟩] 0
-  | symTok {x b} : g.body x = some b → isTerminalBody b = true → DerivesTokD g (.sym x) [⟨x, true⟩] 0
-  | symRule {x b w d} : g.body x = some b → isTerminalBody b = false → DerivesTokD g b w d → DerivesTokD g (.sym x) w d
-  | seq {a b u v d e} : DerivesTokD g a u d → DerivesTokD g b v e → DerivesTokD g (.seq a b) (u ++ v) (d + e)
-  | choiceL {a b w d} : DerivesTokD g a w d → DerivesTokD g (.choice a b) w d
-  | choiceR {a b w d} : DerivesTokD g b w d → DerivesTokD g (.choice a b) w d
-  | repNil {a} : DerivesTokD g (.rep a) [] 0
-  | repCons {a u v d e} : DerivesTokD g (.rep a) u d → DerivesTokD g a v e → DerivesTokD g (.rep a) (u ++ v) (d + e)
-  | rep1 {a u v d e} : DerivesTokD g (.rep a) u d → DerivesTokD g a v e → DerivesTokD g (.rep1 a) (u ++ v) (d + e)
-  | field {n a w d} : DerivesTokD g a w d → DerivesTokD g (.field n a) w d
-  | alias {v n a w d} : DerivesTokD g a w d → DerivesTokD g (.alias v n a) w d
-  | precDyn {v a w d} : DerivesTokD g a w d → DerivesTokD g (.prec .dynamic v a) w (d + v)
-  | prec {k v a w d} : k ≠ .dynamic → DerivesTokD g a w d → DerivesTokD g (.prec k v a) w d
+/-- the first value of greatest magnitude -/
+def comb (a b : Int) : Int := if b.natAbs > a.natAbs then b else a
 
-abbrev EnvD := List (String × List (List Tok × Int))
+inductive DerivesTokD (g : Grammar) : Rule → List Tok → Int → Int → Int → Prop
+  | blank : DerivesTokD g .blank [] 0 0 0
+  | str {s} : DerivesTokD g (.str s) [⟨s, false⟩] 0 0 0
+  | symTok {x b} : g.body x = some b → isTerminalBody b = true → DerivesTokD g (.sym x) [⟨x, true⟩] 0 0 0
+  /-- a rule that is not inlined is a production of its own: its value is added below -/
+  | symRule {x b w o i e} : g.body x = some b → isTerminalBody b = false → g.inline.contains x = false →
+      DerivesTokD g b w o i e → DerivesTokD g (.sym x) w 0 0 (comb o i + e)
+  /-- an inlined rule: its production's value competes with the outer production's own value -/
+  | symInline {x b w o i e} : g.body x = some b → isTerminalBody b = false → g.inline.contains x = true →
+      DerivesTokD g b w o i e → DerivesTokD g (.sym x) w 0 (comb o i) e
+  | seq {a b u v o1 i1 e1 o2 i2 e2} : DerivesTokD g a u o1 i1 e1 → DerivesTokD g b v o2 i2 e2 →
+      DerivesTokD g (.seq a b) (u ++ v) (comb o1 o2) (comb i1 i2) (e1 + e2)
+  | choiceL {a b w o i e} : DerivesTokD g a w o i e → DerivesTokD g (.choice a b) w o i e
+  | choiceR {a b w o i e} : DerivesTokD g b w o i e → DerivesTokD g (.choice a b) w o i e
+  | repNil {a} : DerivesTokD g (.rep a) [] 0 0 0
+  /-- every iteration of a repeat is a production of the repeat's auxiliary symbol -/
+  | repCons {a u v e1 o i e2} : DerivesTokD g (.rep a) u 0 0 e1 → DerivesTokD g a v o i e2 →
+      DerivesTokD g (.rep a) (u ++ v) 0 0 (e1 + (comb o i + e2))
+  | rep1 {a u v e1 o i e2} : DerivesTokD g (.rep a) u 0 0 e1 → DerivesTokD g a v o i e2 →
+      DerivesTokD g (.rep1 a) (u ++ v) 0 0 (e1 + (comb o i + e2))
+  | field {n a w o i e} : DerivesTokD g a w o i e → DerivesTokD g (.field n a) w o i e
+  | alias {v n a w o i e} : DerivesTokD g a w o i e → DerivesTokD g (.alias v n a) w o i e
+  | precDyn {v a w o i e} : DerivesTokD g a w o i e → DerivesTokD g (.prec .dynamic v a) w (comb v o) i e
+  | prec {k v a w o i e} : k ≠ .dynamic → DerivesTokD g a w o i e → DerivesTokD g (.prec k v a) w o i e
 
-def EnvD.get (env : EnvD) (x : String) : List (List Tok × Int) := (env.lookup x).getD []
+structure DItem where
+  w : List Tok
+  own : Int
+  inl : Int
+  e : Int
+  deriving DecidableEq, Hashable, Repr, Inhabited
 
-def dedupD (l : List (List Tok × Int)) : List (List Tok × Int) :=
-  (l.foldl (fun (acc : Std.HashSet (List Tok × Int) × List (List Tok × Int)) x =>
+abbrev EnvD := List (String × List DItem)
+
+def EnvD.get (env : EnvD) (x : String) : List DItem := (env.lookup x).getD []
+
+def dedupD (l : List DItem) : List DItem :=
+  (l.foldl (fun (acc : Std.HashSet DItem × List DItem) x =>
       if acc.1.contains x then acc else (acc.1.insert x, x :: acc.2)) (∅, [])).2.reverse
 
-def concatD (L : Nat) (A B : List (List Tok × Int)) : List (List Tok × Int) :=
-  A.flatMap fun u => B.filterMap fun v => if u.1.length + v.1.length ≤ L then some (u.1 ++ v.1, u.2 + v.2) else none
+def concatD (L : Nat) (A B : List DItem) : List DItem :=
+  A.flatMap fun u => B.filterMap fun v =>
+    if u.w.length + v.w.length ≤ L then some ⟨u.w ++ v.w, comb u.own v.own, comb u.inl v.inl, u.e + v.e⟩ else none
 
-def repCloseD (L : Nat) (A : List (List Tok × Int)) : Nat → List (List Tok × Int)
-  | 0 => [([], 0)]
-  | k + 1 => dedupD (repCloseD L A k ++ concatD L (repCloseD L A k) A)
+/-- one more iteration of a repeat: the iteration's production value moves below -/
+def concatRep (L : Nat) (R A : List DItem) : List DItem :=
+  R.flatMap fun u => A.filterMap fun v =>
+    if u.w.length + v.w.length ≤ L then some ⟨u.w ++ v.w, 0, 0, u.e + (comb v.own v.inl + v.e)⟩ else none
 
-def evalRuleD (g : Grammar) (env : EnvD) (L : Nat) : Rule → List (List Tok × Int)
-  | .blank => [([], 0)]
-  | .str s => [([⟨s, false⟩], 0)]
+def repCloseD (L : Nat) (A : List DItem) : Nat → List DItem
+  | 0 => [⟨[], 0, 0, 0⟩]
+  | k + 1 => dedupD (repCloseD L A k ++ concatRep L (repCloseD L A k) A)
+
+def evalRuleD (g : Grammar) (env : EnvD) (L : Nat) : Rule → List DItem
+  | .blank => [⟨[], 0, 0, 0⟩]
+  | .str s => [⟨[⟨s, false⟩], 0, 0, 0⟩]
   | .sym x =>
     match g.body x with
-    | some b => if isTerminalBody b then [([⟨x, true⟩], 0)] else env.get x
+    | some b =>
+      if isTerminalBody b then [⟨[⟨x, true⟩], 0, 0, 0⟩]
+      else if g.inline.contains x then (env.get x).map fun d => ⟨d.w, 0, comb d.own d.inl, d.e⟩
+      else (env.get x).map fun d => ⟨d.w, 0, 0, comb d.own d.inl + d.e⟩
     | none => []
   | .seq a b => dedupD (concatD L (evalRuleD g env L a) (evalRuleD g env L b))
   | .choice a b => dedupD (evalRuleD g env L a ++ evalRuleD g env L b)
-  | .rep a => repCloseD L (evalRuleD g env L a) L
-  | .rep1 a => dedupD (concatD L (repCloseD L (evalRuleD g env L a) L) (evalRuleD g env L a))
+  | .rep a => (repCloseD L (evalRuleD g env L a) L).filter fun d => d.own == 0 && d.inl == 0
+  | .rep1 a => dedupD (concatRep L ((repCloseD L (evalRuleD g env L a) L).filter fun d => d.own == 0 && d.inl == 0) (evalRuleD g env L a))
   | .field _ a => evalRuleD g env L a
   | .alias _ _ a => evalRuleD g env L a
-  | .prec k v a => if k = .dynamic then (evalRuleD g env L a).map fun e => (e.1, e.2 + v) else evalRuleD g env L a
+  | .prec k v a => if k = .dynamic then (evalRuleD g env L a).map fun d => ⟨d.w, comb v d.own, d.inl, d.e⟩ else evalRuleD g env L a
   | _ => []
 
 def enumStepD (g : Grammar) (L : Nat) (env : EnvD) : EnvD :=
@@ -178,15 +211,33 @@ def enumFixD (g : Grammar) (L : Nat) : Nat → Nat → EnvD → EnvD × Bool
     let env' := enumStepD g L env
     if envSizeD env' == envSizeD env && k > 0 then (env', true) else enumFixD g L cap (k + 1) env'
 
-/-- all (string, total dynamic precedence) pairs of derivations from the start rule, strings of length ≤ L -/
-def dynOracle (g : Grammar) (L : Nat) : List (List Tok × Int) × Bool :=
+/-- all derivations of the start rule's body (strings of length ≤ L) with their dynamic-precedence
+bookkeeping.  The runtime rebuilds the ROOT node at acceptance from its children only
+(`ts_parser__accept`), so what the root of a real tree carries is `e`, the sum below the start
+rule's own production. -/
+def dynOracle (g : Grammar) (L : Nat) : List DItem × Bool :=
   let r := enumFixD g L (6 * L + 2 * g.rules.length + 8) 0 []
   (r.1.get g.start, r.2)
 
-def maxDyn (o : List (List Tok × Int)) (w : List Tok) : Option Int :=
-  (o.filter fun e => e.1 == w).foldl (fun acc e => match acc with
-    | none => some e.2
-    | some m => some (if e.2 > m then e.2 else m)) none
+/-- the greatest TOTAL (start production's own value + everything below) over all derivations of `w` -/
+def maxTotal (o : List DItem) (w : List Tok) : Option Int :=
+  (o.filter fun d => d.w == w).foldl (fun acc d =>
+    let t := comb d.own d.inl + d.e
+    match acc with
+    | none => some t
+    | some m => some (if t > m then t else m)) none
+
+/-- the best total among the derivations of `w` whose sum below the root is `below` (the candidates
+the kept tree can be; the root of a real tree carries only the sum below it) -/
+def keptTotal (o : List DItem) (w : List Tok) (below : Int) : Option Int :=
+  -- (a runtime that carries the start production's own value up to the root shows the total instead)
+  maxTotal (o.filter fun d => d.e == below || comb d.own d.inl + d.e == below) w
+
+/-- the greatest sum-below-the-root over all derivations of `w` -/
+def maxDyn (o : List DItem) (w : List Tok) : Option Int :=
+  (o.filter fun d => d.w == w).foldl (fun acc d => match acc with
+    | none => some d.e
+    | some m => some (if d.e > m then d.e else m)) none
 
 def hasDynRule : Rule → Bool
   | .prec .dynamic _ _ => true
